@@ -27,6 +27,7 @@ GATES = {
     "interval_wider_than_image": 1,
     "point_interval": 1,
     "grid_with_out_of_interval_samples": 1,
+    "grid_of_equal_width_intervals": 1,
     "nodata_in_right_window_fractional": 1,
     "zero_variance_window": 1,
     "width_equals_window": 1,
@@ -36,7 +37,8 @@ GATES = {
     "costs_compared": 100000,
 }
 
-INTERVAL_KINDS = ["neg", "pos", "straddle", "point", "wide", "grid", "grid-points", "straddle", "grid-rowwise", "outside"]
+INTERVAL_KINDS = ["neg", "pos", "straddle", "point", "wide", "grid", "grid-points", "straddle", "grid-rowwise", "outside",
+                  "grid-band", "grid-pointvar"]
 
 
 def plan(tier, seed):
@@ -72,6 +74,8 @@ def cases(spec, ctx):
                 yield {"work": "directed", "what": "outside", "method": m, "sp": sp}
         yield {"work": "directed", "what": "point"}
         yield {"work": "directed", "what": "grid-out"}
+        yield {"work": "directed", "what": "grid-band"}
+        yield {"work": "directed", "what": "grid-pointvar"}
         yield {"work": "directed", "what": "nodata-right-frac"}
         yield {"work": "directed", "what": "zero-variance"}
         yield {"work": "directed", "what": "width-eq-window"}
@@ -112,6 +116,8 @@ def build(case, ctx):
         ikind = "point"
     elif what == "grid-out":
         ikind = "grid"
+    elif what in ("grid-band", "grid-pointvar"):
+        ikind = what
     elif what == "nodata-right-frac":
         subpix, rmk, ikind = 4, "sparse", "straddle"
     elif what == "zero-variance":
@@ -140,7 +146,7 @@ def build(case, ctx):
     grid = None
     if ikind.startswith("grid"):
         lo, hi = -int(rng.integers(1, 5)), int(rng.integers(0, 5))
-        gk = {"grid": "random", "grid-points": "points", "grid-rowwise": "rowwise"}[ikind]
+        gk = {"grid": "random", "grid-points": "points", "grid-rowwise": "rowwise", "grid-band": "band", "grid-pointvar": "pointvar"}[ikind]
         gmin, gmax = gen.grids(rng, rows, cols, lo, hi, gk)
         disp = (gmin, gmax)
         # right grids (needed for a validation step with left grids)
@@ -268,6 +274,8 @@ def run_case(case, ctx):
     ctx.gate("interval_wider_than_image", int(max(abs(gmin), abs(gmax)) >= cols))
     ctx.gate("point_interval", int(gmin == gmax))
     ctx.gate("grid_with_out_of_interval_samples", int(desc["interval"].startswith("grid") and bool((dmin > gmin).any())))
+    ctx.gate("grid_of_equal_width_intervals", int(desc["interval"] in ("grid-band", "grid-pointvar")
+                                                  and bool((dmax - dmin == (dmax - dmin).flat[0]).all()) and bool((dmin != dmin.flat[0]).any())))
     ctx.gate("width_equals_window", int(cols == w))
     ctx.gate("multiband", int(desc["bands"] > 1))
     ctx.gate("roi_offset_coordinates", int(desc["col0"] > 0))
